@@ -138,84 +138,164 @@ theorem dirStep_done_mono (src dst : EP) (b : Bool) (d : Dir) (h : d.done = true
 theorem Dir.rem_zero_iff (d : Dir) : d.rem = 0 ↔ d.done = true := by
   unfold Dir.rem; split <;> simp_all
 
-/-! ### both goroutines under a schedule -/
+/-! ### both goroutines under a schedule (with Writes that stay in progress) -/
 
 structure TcpInv (A B : EP) (s : TcpSt) : Prop where
   ab : DirInv A s.ab
   ba : DirInv B s.ba
+  abh : ∀ d, s.abHeld = some d → DirInv A d ∧ d.rem ≤ stepsFor A.reads
+  bah : ∀ d, s.baHeld = some d → DirInv B d ∧ d.rem ≤ stepsFor B.reads
+  abr : s.ab.rem ≤ stepsFor A.reads
+  bar : s.ba.rem ≤ stepsFor B.reads
 
-theorem tcpStep_inv (A B : EP) (s : TcpSt) (t : Bool) (h : TcpInv A B s) : TcpInv A B (tcpStep A B s t) := by
+theorem dirStep_rem_le (src dst : EP) (b : Bool) (d : Dir) (n : Nat) (h : d.rem ≤ n) : (dirStep src dst b d).rem ≤ n := by
+  have := dirStep_rem src dst b d
+  omega
+
+theorem tcpStep_inv (A B : EP) (s : TcpSt) (t : TTok) (h : TcpInv A B s) : TcpInv A B (tcpStep A B s t) := by
   unfold tcpStep
   cases t with
-  | true => exact ⟨dirStep_inv A B _ _ h.ab, h.ba⟩
-  | false => exact ⟨h.ab, dirStep_inv B A _ _ h.ba⟩
+  | a =>
+    dsimp only
+    split
+    · exact h
+    · exact ⟨dirStep_inv A B _ _ h.ab, h.ba, h.abh, h.bah, dirStep_rem_le _ _ _ _ _ h.abr, h.bar⟩
+  | b =>
+    dsimp only
+    split
+    · exact h
+    · exact ⟨h.ab, dirStep_inv B A _ _ h.ba, h.abh, h.bah, h.abr, dirStep_rem_le _ _ _ _ _ h.bar⟩
+  | ah =>
+    dsimp only
+    split
+    · exact h
+    · split
+      · refine ⟨h.ab, h.ba, fun d hd => ?_, h.bah, h.abr, h.bar⟩
+        simp only [Option.some.injEq] at hd
+        subst hd
+        exact ⟨dirStep_inv A B _ _ h.ab, dirStep_rem_le _ _ _ _ _ h.abr⟩
+      · exact ⟨dirStep_inv A B _ _ h.ab, h.ba, h.abh, h.bah, dirStep_rem_le _ _ _ _ _ h.abr, h.bar⟩
+  | bh =>
+    dsimp only
+    split
+    · exact h
+    · split
+      · refine ⟨h.ab, h.ba, h.abh, fun d hd => ?_, h.abr, h.bar⟩
+        simp only [Option.some.injEq] at hd
+        subst hd
+        exact ⟨dirStep_inv B A _ _ h.ba, dirStep_rem_le _ _ _ _ _ h.bar⟩
+      · exact ⟨h.ab, dirStep_inv B A _ _ h.ba, h.abh, h.bah, h.abr, dirStep_rem_le _ _ _ _ _ h.bar⟩
+  | ax =>
+    dsimp only
+    split
+    · rename_i d hd
+      exact ⟨(h.abh d hd).1, h.ba, fun _ h' => by simp at h', h.bah, (h.abh d hd).2, h.bar⟩
+    · exact h
+  | bx =>
+    dsimp only
+    split
+    · rename_i d hd
+      exact ⟨h.ab, (h.bah d hd).1, h.abh, fun _ h' => by simp at h', h.abr, (h.bah d hd).2⟩
+    · exact h
 
-theorem tcpFold_inv (A B : EP) (σ : List Bool) (s : TcpSt) (h : TcpInv A B s) :
+theorem tcpFold_inv (A B : EP) (σ : List TTok) (s : TcpSt) (h : TcpInv A B s) :
     TcpInv A B (σ.foldl (tcpStep A B) s) := by
   induction σ generalizing s with
   | nil => exact h
   | cons t σ ih => exact ih _ (tcpStep_inv A B s t h)
 
-theorem tcpRun_inv (A B : EP) (σ : List Bool) : TcpInv A B (tcpRun A B σ) :=
-  tcpFold_inv A B σ _ ⟨dirInv_init A, dirInv_init B⟩
+theorem tcpInit_inv (A B : EP) : TcpInv A B (tcpInit A B) :=
+  ⟨dirInv_init A, dirInv_init B, fun _ h => by simp [tcpInit] at h, fun _ h => by simp [tcpInit] at h,
+   by simp [tcpInit, Dir.rem, stepsFor_eq], by simp [tcpInit, Dir.rem, stepsFor_eq]⟩
 
-theorem tcpFold_rem_ab (A B : EP) (σ : List Bool) (s : TcpSt) :
-    (σ.foldl (tcpStep A B) s).ab.rem ≤ s.ab.rem - σ.count true := by
-  induction σ generalizing s with
-  | nil => simp
-  | cons t σ ih =>
-    have := ih (tcpStep A B s t)
-    cases t with
-    | true =>
-      have h1 : (tcpStep A B s true).ab.rem ≤ s.ab.rem - 1 := by
-        simp only [tcpStep, if_true]; exact dirStep_rem A B _ _
-      simp only [List.foldl_cons, List.count_cons_self]
-      omega
-    | false =>
-      have h1 : (tcpStep A B s false).ab = s.ab := by simp [tcpStep]
-      simp only [List.foldl_cons]
-      rw [h1] at this
-      simpa using this
+theorem tcpRun_inv (A B : EP) (σ : List TTok) : TcpInv A B (tcpRun A B σ) :=
+  tcpFold_inv A B σ _ (tcpInit_inv A B)
 
-theorem tcpFold_rem_ba (A B : EP) (σ : List Bool) (s : TcpSt) :
-    (σ.foldl (tcpStep A B) s).ba.rem ≤ s.ba.rem - σ.count false := by
-  induction σ generalizing s with
-  | nil => simp
-  | cons t σ ih =>
-    have := ih (tcpStep A B s t)
-    cases t with
-    | false =>
-      have h1 : (tcpStep A B s false).ba.rem ≤ s.ba.rem - 1 := by
-        simp only [tcpStep]; exact dirStep_rem B A _ _
-      simp only [List.foldl_cons, List.count_cons_self]
-      omega
-    | true =>
-      have h1 : (tcpStep A B s true).ba = s.ba := by simp [tcpStep]
-      simp only [List.foldl_cons]
-      rw [h1] at this
-      simpa using this
+/-- No Write is in progress. -/
+def TcpSt.quiet (s : TcpSt) : Prop := s.abHeld = none ∧ s.baHeld = none
 
-theorem tcpInit_rem_ab (A B : EP) : (tcpInit A B).ab.rem = stepsFor A.reads := by
-  simp [tcpInit, Dir.rem, stepsFor_eq]
+/-- A schedule of uninterrupted iterations only. -/
+def plainT (τ : List TTok) : Prop := ∀ t ∈ τ, t = .a ∨ t = .b
 
-theorem tcpInit_rem_ba (A B : EP) : (tcpInit A B).ba.rem = stepsFor B.reads := by
-  simp [tcpInit, Dir.rem, stepsFor_eq]
+theorem tcp_release_quiet (A B : EP) (s : TcpSt) : (tcpStep A B (tcpStep A B s .ax) .bx).quiet := by
+  unfold tcpStep TcpSt.quiet
+  dsimp only
+  cases h1 : s.abHeld <;> cases h2 : s.baHeld <;> simp [h1, h2]
 
-/-- Enough turns for both goroutines: both finish, `wg.Wait()` passes. -/
-theorem tcpRun_returned (A B : EP) (σ : List Bool)
-    (ha : stepsFor A.reads ≤ σ.count true) (hb : stepsFor B.reads ≤ σ.count false) :
-    (tcpRun A B σ).returned = true := by
-  have h1 := tcpFold_rem_ab A B σ (tcpInit A B)
-  have h2 := tcpFold_rem_ba A B σ (tcpInit A B)
-  rw [tcpInit_rem_ab] at h1
-  rw [tcpInit_rem_ba] at h2
-  have d1 : (tcpRun A B σ).ab.done = true := (Dir.rem_zero_iff _).mp (by unfold tcpRun; omega)
-  have d2 : (tcpRun A B σ).ba.done = true := (Dir.rem_zero_iff _).mp (by unfold tcpRun; omega)
+theorem tcpFold_plain (A B : EP) (τ : List TTok) (hτ : plainT τ) : ∀ s : TcpSt, s.quiet →
+    (τ.foldl (tcpStep A B) s).quiet ∧
+    (τ.foldl (tcpStep A B) s).ab.rem ≤ s.ab.rem - τ.count .a ∧
+    (τ.foldl (tcpStep A B) s).ba.rem ≤ s.ba.rem - τ.count .b := by
+  induction τ with
+  | nil => intro s hq; exact ⟨hq, by simp, by simp⟩
+  | cons t τ ih =>
+    intro s hq
+    have ht := hτ t (by simp)
+    have hτ' : plainT τ := fun x hx => hτ x (by simp [hx])
+    rw [List.foldl_cons]
+    cases ht with
+    | inl ha =>
+      subst ha
+      have hs : tcpStep A B s .a = { s with ab := dirStep A B s.bSeen s.ab } := by
+        simp [tcpStep, hq.1]
+      have hq' : (tcpStep A B s .a).quiet := by rw [hs]; exact hq
+      have h1 : (tcpStep A B s .a).ab.rem ≤ s.ab.rem - 1 := by rw [hs]; exact dirStep_rem A B _ _
+      have h2 : (tcpStep A B s .a).ba = s.ba := by rw [hs]
+      have := ih hτ' _ hq'
+      rw [h2] at this
+      refine ⟨this.1, ?_, ?_⟩
+      · simp only [List.count_cons_self]; omega
+      · have hc : (TTok.a :: τ).count .b = τ.count .b := by simp [List.count_cons]
+        rw [hc]; exact this.2.2
+    | inr hb =>
+      subst hb
+      have hs : tcpStep A B s .b = { s with ba := dirStep B A s.aSeen s.ba } := by
+        simp [tcpStep, hq.2]
+      have hq' : (tcpStep A B s .b).quiet := by rw [hs]; exact hq
+      have h1 : (tcpStep A B s .b).ba.rem ≤ s.ba.rem - 1 := by rw [hs]; exact dirStep_rem B A _ _
+      have h2 : (tcpStep A B s .b).ab = s.ab := by rw [hs]
+      have := ih hτ' _ hq'
+      rw [h2] at this
+      refine ⟨this.1, ?_, ?_⟩
+      · have hc : (TTok.b :: τ).count .a = τ.count .a := by simp [List.count_cons]
+        rw [hc]; exact this.2.1
+      · simp only [List.count_cons_self]; omega
+
+/-- Whatever happened before (any interleaving, Writes left in progress): once the pending Writes
+complete and both goroutines get enough uninterrupted turns, both finish and `wg.Wait()` passes. -/
+theorem tcpRun_returned (A B : EP) (σ τ : List TTok) (hτ : plainT τ)
+    (ha : stepsFor A.reads ≤ τ.count .a) (hb : stepsFor B.reads ≤ τ.count .b) :
+    (tcpRun A B (σ ++ [.ax, .bx] ++ τ)).returned = true := by
+  unfold tcpRun
+  rw [List.foldl_append, List.foldl_append]
+  have h0 := tcpFold_inv A B σ _ (tcpInit_inv A B)
+  generalize σ.foldl (tcpStep A B) (tcpInit A B) = s0 at h0
+  have hq := tcp_release_quiet A B s0
+  have h1 := tcpStep_inv A B _ .bx (tcpStep_inv A B s0 .ax h0)
+  simp only [List.foldl_cons, List.foldl_nil]
+  generalize tcpStep A B (tcpStep A B s0 .ax) .bx = s1 at hq h1
+  have := tcpFold_plain A B τ hτ s1 hq
+  have r1 := h1.abr
+  have r2 := h1.bar
+  have d1 : (τ.foldl (tcpStep A B) s1).ab.done = true := (Dir.rem_zero_iff _).mp (by omega)
+  have d2 : (τ.foldl (tcpStep A B) s1).ba.done = true := (Dir.rem_zero_iff _).mp (by omega)
   simp [TcpSt.returned, d1, d2]
 
-theorem tcpComplete_counts (A B : EP) (σ : List Bool) :
-    stepsFor A.reads ≤ (tcpComplete A B σ).count true ∧ stepsFor B.reads ≤ (tcpComplete A B σ).count false := by
-  simp [tcpComplete, List.count_append, List.count_replicate]
+theorem tcpComplete_eq (A B : EP) (σ : List TTok) :
+    tcpComplete A B σ = σ ++ [.ax, .bx] ++ (List.replicate (stepsFor A.reads) .a ++ List.replicate (stepsFor B.reads) .b) := by
+  simp [tcpComplete, List.append_assoc]
+
+theorem drain_plain (n m : Nat) : plainT (List.replicate n .a ++ List.replicate m .b) := by
+  intro t ht
+  simp only [List.mem_append, List.mem_replicate] at ht
+  cases ht with
+  | inl h => exact Or.inl h.2
+  | inr h => exact Or.inr h.2
+
+theorem drain_counts (n m : Nat) :
+    n ≤ (List.replicate n TTok.a ++ List.replicate m TTok.b).count .a ∧
+    m ≤ (List.replicate n TTok.a ++ List.replicate m TTok.b).count .b := by
+  simp [List.count_append, List.count_replicate]
 
 theorem dir_final (src : EP) (d : Dir) (h : DirInv src d) (hd : d.done = true) :
     (d.wfEnv || d.delivered == src.reads.flatten) = true := by
@@ -228,7 +308,7 @@ theorem dir_final (src : EP) (d : Dir) (h : DirInv src d) (hd : d.done = true) :
     simp [h1]
 
 theorem holdsTcp_of (A B : EP) (s : TcpSt) (inv : TcpInv A B s) (ret : s.returned = true) :
-    holdsTcp A B (tcpObs s) = true := by
+    holdsTcp A B (tcpObs A B s) = true := by
   have hd : s.ab.done = true ∧ s.ba.done = true := by simpa [TcpSt.returned] using ret
   have p1 : s.ab.delivered.isPrefixOf A.reads.flatten = true := List.isPrefixOf_iff_prefix.mpr inv.ab.pre
   have p2 : s.ba.delivered.isPrefixOf B.reads.flatten = true := List.isPrefixOf_iff_prefix.mpr inv.ba.pre
@@ -613,72 +693,403 @@ theorem flush_batch (e : Enc) : e.flush.batch = [] := by
   · rename_i h; exact List.isEmpty_iff.mp h
   · rfl
 
-theorem flush_fields (e : Enc) : e.flush.pending = e.pending ∧ e.flush.nread = e.nread ∧ e.flush.done = e.done := by
+theorem flush_fields (e : Enc) : e.flush.pending = e.pending ∧ e.flush.nread = e.nread ∧ e.flush.done = e.done ∧
+    e.flush.wip = e.wip ∧ e.flush.parked = e.parked := by
   unfold Enc.flush
   split <;> simp
 
+def parkedEnc : Option ParkedEv → Bytes
+  | some (.dgram d) => encode1 d
+  | _ => []
+
+/-- Everything the tunnel has been or will be handed for the datagrams taken so far. -/
+def Enc.stream (e : Enc) : Bytes := e.flushes.flatten ++ e.batch ++ parkedEnc e.parked
+
 structure EncInv (uevs : List UEv) (e : Enc) : Prop where
   split : ∃ taken, dgramsOf uevs = taken ++ dgramsOf e.pending ∧ e.nread = taken.length ∧
-      e.flushes.flatten ++ e.batch = encodeAll (normDs taken)
-  fin : e.done = true → e.batch = []
+      e.stream = encodeAll (normDs taken)
+  fin : e.done = true → e.batch = [] ∧ e.wip = none ∧ e.parked = none
+  /-- the region a Write in progress refers to is the whole batch: nobody appends while it lasts -/
+  wipn : ∀ w, e.wip = some w → w.n = e.batch.length ∧ e.done = false
+  /-- the main loop waits for `batchMu` only while the flush goroutine writes -/
+  park : e.parked ≠ none → ∃ n, e.wip = some ⟨n, .ticker⟩
 
 theorem encInv_init (uevs : List UEv) : EncInv uevs { pending := uevs } :=
-  ⟨⟨[], by simp, rfl, by simp [normDs, encodeAll]⟩, fun h => by simp at h⟩
+  ⟨⟨[], by simp, rfl, by simp [Enc.stream, parkedEnc, normDs, encodeAll]⟩, fun h => by simp at h, fun _ h => by simp at h,
+   fun h => by simp at h⟩
 
-theorem encEv_fields (e : Enc) (ev : UEv) : (encEv e ev).pending = e.pending ∧ (encEv e ev).done = e.done := by
-  cases ev with
-  | tick => exact ⟨(flush_fields e).1, (flush_fields e).2.2⟩
-  | dgram d0 =>
-    simp only [encEv]
+theorem encInv_noparked (uevs : List UEv) (e : Enc) (h : EncInv uevs e) (hw : e.wip = none) : e.parked = none := by
+  cases hp : e.parked with
+  | none => rfl
+  | some p =>
+    obtain ⟨n, hn⟩ := h.park (by simp [hp])
+    rw [hw] at hn; cases hn
+
+/-- The locked part of the loop body: the record is appended behind what is there; a Write it
+starts and leaves in progress refers to the whole batch. -/
+theorem encode_spec (e : Enc) (d : Bytes) (hold : Bool) (hw : e.wip = none) :
+    (e.encode d hold).flushes.flatten ++ (e.encode d hold).batch = e.flushes.flatten ++ e.batch ++ encode1 d ∧
+    (e.encode d hold).pending = e.pending ∧ (e.encode d hold).nread = e.nread ∧ (e.encode d hold).done = e.done ∧
+    (e.encode d hold).parked = e.parked ∧
+    ((e.encode d hold).wip = none ∨ (e.encode d hold).wip = some ⟨(e.encode d hold).batch.length, .mainHalf⟩) ∧
+    (hold = false → (e.encode d hold).wip = none) := by
+  unfold Enc.encode
+  -- room
+  have r : (e.room d.length).flushes.flatten ++ (e.room d.length).batch = e.flushes.flatten ++ e.batch ∧
+      (e.room d.length).pending = e.pending ∧ (e.room d.length).nread = e.nread ∧ (e.room d.length).done = e.done ∧
+      (e.room d.length).parked = e.parked ∧ (e.room d.length).wip = none := by
+    unfold Enc.room
     split
-    · simp
-    · split <;> split <;> simp [flush_fields]
+    · have hf := flush_fields e
+      exact ⟨flush_stream e, hf.1, hf.2.1, hf.2.2.1, hf.2.2.2.2, by rw [hf.2.2.2.1]; exact hw⟩
+    · exact ⟨rfl, rfl, rfl, rfl, rfl, hw⟩
+  generalize e.room d.length = e1 at r ⊢
+  -- put
+  have p : (e1.put d).flushes.flatten ++ (e1.put d).batch = e.flushes.flatten ++ e.batch ++ encode1 d ∧
+      (e1.put d).pending = e.pending ∧ (e1.put d).nread = e.nread ∧ (e1.put d).done = e.done ∧
+      (e1.put d).parked = e.parked ∧ (e1.put d).wip = none := by
+    refine ⟨?_, r.2.1, r.2.2.1, r.2.2.2.1, r.2.2.2.2.1, r.2.2.2.2.2⟩
+    show e1.flushes.flatten ++ (e1.batch ++ encode1 d) = _
+    rw [← List.append_assoc, r.1]
+  generalize e1.put d = e2 at p ⊢
+  -- half
+  unfold Enc.half
+  split
+  · cases hold with
+    | true =>
+      rw [if_pos rfl]
+      exact ⟨p.1, p.2.1, p.2.2.1, p.2.2.2.1, p.2.2.2.2.1, Or.inr rfl, fun h => by cases h⟩
+    | false =>
+      rw [if_neg (by simp)]
+      have hf := flush_fields e2
+      exact ⟨by rw [flush_stream e2]; exact p.1, by rw [hf.1]; exact p.2.1, by rw [hf.2.1]; exact p.2.2.1,
+        by rw [hf.2.2.1]; exact p.2.2.2.1, by rw [hf.2.2.2.2]; exact p.2.2.2.2.1,
+        Or.inl (by rw [hf.2.2.2.1]; exact p.2.2.2.2.2), fun _ => by rw [hf.2.2.2.1]; exact p.2.2.2.2.2⟩
+  · exact ⟨p.1, p.2.1, p.2.2.1, p.2.2.2.1, p.2.2.2.2.1, Or.inl p.2.2.2.2.2, fun _ => p.2.2.2.2.2⟩
 
-theorem encEv_inv (uevs : List UEv) (e : Enc) (ev : UEv) (rest : List UEv) (h : EncInv uevs e)
-    (hp : e.pending = ev :: rest) (hd : e.done = false) : EncInv uevs (encEv { e with pending := rest } ev) := by
+/-- Facts about one event of the UDP side taken while no Write is in progress. -/
+theorem encEv_spec (uevs : List UEv) (e : Enc) (hold : Bool) (ev : UEv) (rest : List UEv) (h : EncInv uevs e)
+    (hp : e.pending = ev :: rest) (hd : e.done = false) (hw : e.wip = none) :
+    EncInv uevs (encEv { e with pending := rest } hold ev) ∧
+    (encEv { e with pending := rest } hold ev).pending = rest ∧
+    (encEv { e with pending := rest } hold ev).done = false ∧
+    (encEv { e with pending := rest } hold ev).parked = none ∧
+    (∀ n te, (encEv { e with pending := rest } hold ev).wip ≠ some ⟨n, .mainFin te⟩) ∧
+    (hold = false → (encEv { e with pending := rest } hold ev).wip = none) := by
   obtain ⟨taken, h1, h2, h3⟩ := h.split
-  refine ⟨?_, fun hdone => by rw [(encEv_fields _ ev).2] at hdone; simp [hd] at hdone⟩
+  have hpk := encInv_noparked uevs e h hw
+  have h3' : e.flushes.flatten ++ e.batch = encodeAll (normDs taken) := by
+    simpa [Enc.stream, hpk, parkedEnc] using h3
   cases ev with
   | tick =>
-    refine ⟨taken, ?_, ?_, ?_⟩
-    · rw [h1, hp]; simp [encEv, flush_fields, dgramsOf]
-    · simp [encEv, flush_fields, h2]
-    · simp only [encEv]; rw [flush_stream]; exact h3
+    have hdg : dgramsOf uevs = taken ++ dgramsOf rest := by rw [h1, hp]; rfl
+    dsimp only [encEv]
+    by_cases hh : (hold && !e.batch.isEmpty) = true
+    · rw [if_pos hh]
+      refine ⟨⟨⟨taken, hdg, h2, ?_⟩, fun hdn => ?_, fun w hw' => ?_, fun hne => ?_⟩, rfl, hd, hpk, fun n te hc => ?_, fun hf => ?_⟩
+      · show e.flushes.flatten ++ e.batch ++ parkedEnc e.parked = _
+        rw [hpk]; simpa [parkedEnc] using h3'
+      · exact absurd (hd ▸ hdn : false = true) (by simp)
+      · have : w = ⟨e.batch.length, .ticker⟩ := by
+          have hw'' : (some (⟨e.batch.length, .ticker⟩ : Wip)) = some w := hw'
+          exact (Option.some.inj hw'').symm
+        subst this
+        exact ⟨rfl, hd⟩
+      · exact absurd hpk hne
+      · have hc' : (some (⟨e.batch.length, .ticker⟩ : Wip)) = some ⟨n, .mainFin te⟩ := hc
+        cases Option.some.inj hc'
+      · rw [hf] at hh; simp at hh
+    · rw [if_neg hh]
+      have hf := flush_fields { e with pending := rest }
+      have hs := flush_stream { e with pending := rest }
+      dsimp only at hf hs
+      refine ⟨⟨⟨taken, by rw [hf.1]; exact hdg, by rw [hf.2.1]; exact h2, ?_⟩, fun hdn => ?_, fun w hw' => ?_, fun hne => ?_⟩,
+        hf.1, by rw [hf.2.2.1]; exact hd, by rw [hf.2.2.2.2]; exact hpk, fun n te => by rw [hf.2.2.2.1, hw]; simp,
+        fun _ => by rw [hf.2.2.2.1]; exact hw⟩
+      · simp only [Enc.stream]; rw [hs, hf.2.2.2.2, hpk]; simpa [parkedEnc] using h3'
+      · rw [hf.2.2.1, hd] at hdn; cases hdn
+      · rw [hf.2.2.2.1, hw] at hw'; cases hw'
+      · rw [hf.2.2.2.2, hpk] at hne; exact absurd rfl hne
   | dgram d0 =>
-    refine ⟨taken ++ [d0], ?_, ?_, ?_⟩
-    · rw [h1, hp, (encEv_fields _ _).1]; simp [dgramsOf]
-    · simp only [encEv]
-      split
-      · simp [h2]
-      · split <;> split <;> simp [flush_fields, h2]
-    · rw [normDs_append, encodeAll_append, ← h3]
-      simp only [encEv]
-      by_cases hz : (d0.take readBuf_0).length = 0
-      · simp only [hz, if_true]
-        have : normDs [d0] = [] := by simp [normDs, hz]
-        simp [this, encodeAll]
-      · simp only [hz, if_false]
-        have : normDs [d0] = [d0.take readBuf_0] := by
-          simp only [normDs, List.map_cons, List.map_nil]
-          rw [List.filter_cons_of_pos (by simpa using hz)]; rfl
-        rw [this]
-        have hone : encodeAll [d0.take readBuf_0] = encode1 (d0.take readBuf_0) := by simp [encodeAll]
-        rw [hone]
-        split
-        · split
-          · rw [flush_stream]; simp only []; rw [← List.append_assoc, flush_stream]
-          · simp only []; rw [← List.append_assoc, flush_stream]
-        · split
-          · rw [flush_stream]; simp only [List.append_assoc]
-          · simp only [List.append_assoc]
+    have hdg : dgramsOf uevs = (taken ++ [d0]) ++ dgramsOf rest := by rw [h1, hp]; simp [dgramsOf]
+    dsimp only [encEv]
+    by_cases hz : (d0.take readBuf_0).length = 0
+    · rw [if_pos hz]
+      have hn : normDs [d0] = [] := by simp [normDs, hz]
+      refine ⟨⟨⟨taken ++ [d0], hdg, by show e.nread + 1 = _; simp [h2], ?_⟩, fun hdn => ?_, fun w hw' => ?_, fun hne => ?_⟩,
+        rfl, hd, hpk, fun n te hc => ?_, fun _ => hw⟩
+      · rw [normDs_append, hn, List.append_nil]
+        show e.flushes.flatten ++ e.batch ++ parkedEnc e.parked = _
+        rw [hpk]; simpa [parkedEnc] using h3'
+      · exact absurd (hd ▸ hdn : false = true) (by simp)
+      · have hw'' : e.wip = some w := hw'
+        rw [hw] at hw''; cases hw''
+      · exact absurd hpk hne
+      · have hc' : e.wip = some ⟨n, .mainFin te⟩ := hc
+        rw [hw] at hc'; cases hc'
+    · rw [if_neg hz]
+      have hsp := encode_spec { e with pending := rest, nread := e.nread + 1 } (d0.take readBuf_0) hold hw
+      dsimp only at hsp
+      generalize ({ e with pending := rest, nread := e.nread + 1 } : Enc).encode (d0.take readBuf_0) hold = e' at hsp
+      obtain ⟨s1, s2, s3, s4, s5, s6, s7⟩ := hsp
+      have hn : normDs [d0] = [d0.take readBuf_0] := by
+        simp only [normDs, List.map_cons, List.map_nil]
+        rw [List.filter_cons, if_pos (by simpa using hz)]; rfl
+      refine ⟨⟨⟨taken ++ [d0], (by rw [s2]; exact hdg), (by rw [s3]; simp [h2]), ?_⟩,
+        (fun hdn => by rw [s4, hd] at hdn; cases hdn), (fun w hw' => ?_), (fun hne => by rw [s5, hpk] at hne; exact absurd rfl hne)⟩,
+        s2, (by rw [s4]; exact hd), (by rw [s5]; exact hpk), (fun n te => ?_), s7⟩
+      · simp only [Enc.stream]
+        rw [s5, hpk, normDs_append, hn, encodeAll_append, ← h3', s1]
+        simp [parkedEnc, encodeAll]
+      · cases s6 with
+        | inl h' => rw [h'] at hw'; cases hw'
+        | inr h' =>
+          rw [h'] at hw'
+          have := Option.some.inj hw'
+          subst this
+          exact ⟨rfl, by rw [s4]; exact hd⟩
+      · cases s6 with
+        | inl h' => rw [h']; simp
+        | inr h' => rw [h']; simp
 
-theorem finish_inv (uevs : List UEv) (e : Enc) (te : Bool) (h : EncInv uevs e) : EncInv uevs (e.finish te) := by
+theorem finish_spec (uevs : List UEv) (e : Enc) (te hold : Bool) (h : EncInv uevs e) (hd : e.done = false) (hw : e.wip = none) :
+    EncInv uevs (e.finish te hold) ∧ (e.finish te hold).pending = e.pending ∧ (e.finish te hold).parked = none ∧
+    ((e.finish te hold).done = true ∨ ∃ n, (e.finish te hold).wip = some ⟨n, .mainFin te⟩) ∧
+    (hold = false → (e.finish te hold).done = true) := by
   obtain ⟨taken, h1, h2, h3⟩ := h.split
-  refine ⟨⟨taken, ?_, ?_, ?_⟩, fun _ => ?_⟩
-  · simpa [Enc.finish, flush_fields] using h1
-  · simpa [Enc.finish, flush_fields] using h2
-  · simp only [Enc.finish]; rw [flush_stream]; exact h3
-  · simp [Enc.finish, flush_batch]
+  have hpk := encInv_noparked uevs e h hw
+  unfold Enc.finish
+  by_cases hh : (hold && !e.batch.isEmpty) = true
+  · rw [if_pos hh]
+    refine ⟨⟨⟨taken, h1, h2, h3⟩, fun hdn => ?_, fun w hw' => ?_, fun hne => absurd hpk hne⟩, rfl, hpk,
+      Or.inr ⟨_, rfl⟩, fun hf => ?_⟩
+    · exact absurd (hd ▸ hdn : false = true) (by simp)
+    · have hw'' : (some (⟨e.batch.length, .mainFin te⟩ : Wip)) = some w := hw'
+      have := Option.some.inj hw''
+      subst this
+      exact ⟨rfl, hd⟩
+    · rw [hf] at hh; simp at hh
+  · rw [if_neg hh]
+    have hf := flush_fields e
+    have hs := flush_stream e
+    have hb := flush_batch e
+    refine ⟨⟨⟨taken, by show dgramsOf uevs = taken ++ dgramsOf e.flush.pending; rw [hf.1]; exact h1,
+        by show e.flush.nread = _; rw [hf.2.1]; exact h2, ?_⟩,
+      fun _ => ⟨hb, by show e.flush.wip = none; rw [hf.2.2.2.1]; exact hw, by show e.flush.parked = none; rw [hf.2.2.2.2]; exact hpk⟩,
+      fun w hw' => ?_, fun hne => ?_⟩, hf.1, by show e.flush.parked = none; rw [hf.2.2.2.2]; exact hpk, Or.inl rfl, fun _ => rfl⟩
+    · show e.flush.flushes.flatten ++ e.flush.batch ++ parkedEnc e.flush.parked = _
+      rw [hf.2.2.2.2, hs]; exact h3
+    · have hw'' : e.flush.wip = some w := hw'
+      rw [hf.2.2.2.1, hw] at hw''; cases hw''
+    · have : e.flush.parked ≠ none := hne
+      rw [hf.2.2.2.2] at this; exact absurd hpk this
+
+/-- The main loop has left (or is about to leave) its loop. -/
+def EncTrig (e : Enc) : Prop :=
+  e.done = true ∨ (∃ n te, e.wip = some ⟨n, .mainFin te⟩) ∨ (∃ te, e.parked = some (.tail te))
+
+/-- While somebody's tunnel Write is in progress nothing touches the batch buffer: at most the main
+loop takes one more Read and parks its result. -/
+theorem stepBlocked_spec (uevs : List UEv) (e : Enc) (w : Wip) (uc : Bool) (ut : Option Bool) (h : EncInv uevs e)
+    (hw : e.wip = some w) (hd : e.done = false) :
+    EncInv uevs (e.stepBlocked w uc ut) ∧ (e.stepBlocked w uc ut).wip = e.wip ∧ (e.stepBlocked w uc ut).done = false ∧
+    (e.stepBlocked w uc ut).batch = e.batch ∧ (e.stepBlocked w uc ut).flushes = e.flushes ∧
+    (e.stepBlocked w uc ut).pending.length ≤ e.pending.length ∧
+    ((e.stepBlocked w uc ut).pending ≠ [] → e.pending ≠ []) ∧
+    (EncTrig (e.stepBlocked w uc ut) → EncTrig e ∨ uc = true ∨ (e.stepBlocked w uc ut).pending = []) := by
+  obtain ⟨taken, h1, h2, h3⟩ := h.split
+  have hwn := h.wipn w hw
+  have keep : ∀ e' : Enc, e'.wip = e.wip → e'.done = e.done → e'.batch = e.batch → e'.flushes = e.flushes →
+      e'.nread = e.nread → e'.pending = e.pending → (e'.parked = e.parked ∨ (e.parked = none ∧ w.who = .ticker ∧ ∃ te, e'.parked = some (.tail te))) →
+      EncInv uevs e' := by
+    intro e' a1 a2 a3 a4 a5 a6 a7
+    refine ⟨⟨taken, (by rw [a6]; exact h1), (by rw [a5]; exact h2), ?_⟩, (fun hdn => by rw [a2, hd] at hdn; cases hdn),
+      (fun w' hw' => by rw [a1] at hw'; rw [a3, a2]; exact h.wipn w' hw'), (fun hne => ?_)⟩
+    · simp only [Enc.stream] at h3 ⊢
+      rw [a3, a4]
+      cases a7 with
+      | inl hp => rw [hp]; exact h3
+      | inr hp => obtain ⟨p0, _, te, pt⟩ := hp; rw [pt]; rw [p0] at h3; simpa [parkedEnc] using h3
+    · rw [a1]
+      cases a7 with
+      | inl hp => rw [hp] at hne; exact h.park hne
+      | inr hp => exact ⟨w.n, by rw [hw]; obtain ⟨_, hk, _⟩ := hp; cases w; simp at hk ⊢; exact hk⟩
+  have trig_keep : ∀ e' : Enc, e'.wip = e.wip → e'.done = e.done → e'.parked = e.parked → EncTrig e' → EncTrig e := by
+    intro e' a1 a2 a3 ht
+    unfold EncTrig at ht ⊢
+    rw [a1, a2, a3] at ht; exact ht
+  unfold Enc.stepBlocked
+  cases hp : e.pending with
+  | nil =>
+    dsimp only
+    by_cases hc : (w.who == .ticker && e.parked.isNone) = true
+    · rw [if_pos hc]
+      have hc' : w.who = .ticker ∧ e.parked = none := by
+        simp only [Bool.and_eq_true, beq_iff_eq, Option.isNone_iff_eq_none] at hc; exact hc
+      cases uc with
+      | true =>
+        rw [if_pos rfl]
+        exact ⟨keep _ rfl rfl rfl rfl rfl hp.symm (Or.inr ⟨hc'.2, hc'.1, false, rfl⟩), rfl, hd, rfl, rfl, (by simp [hp]),
+          (fun hne => by simp [hp] at hne), (fun _ => Or.inr (Or.inl rfl))⟩
+      | false =>
+        rw [if_neg (by simp)]
+        cases ut with
+        | none =>
+          dsimp only
+          exact ⟨h, rfl, hd, rfl, rfl, (by simp [hp]), (fun hne => absurd hp hne), (fun ht => Or.inl ht)⟩
+        | some te =>
+          dsimp only
+          exact ⟨keep _ rfl rfl rfl rfl rfl hp.symm (Or.inr ⟨hc'.2, hc'.1, te, rfl⟩), rfl, hd, rfl, rfl, (by simp [hp]),
+            (fun hne => by simp [hp] at hne), (fun _ => Or.inr (Or.inr rfl))⟩
+    · rw [if_neg hc]
+      exact ⟨h, rfl, hd, rfl, rfl, (by simp [hp]), (fun hne => absurd hp hne), (fun ht => Or.inl ht)⟩
+  | cons ev rest =>
+    cases ev with
+    | tick =>
+      dsimp only
+      refine ⟨⟨⟨taken, (by rw [h1, hp]; rfl), h2, h3⟩, (fun hdn => by simp [hd] at hdn), (fun w' hw' => h.wipn w' hw'), h.park⟩,
+        rfl, hd, rfl, rfl, (by simp), (fun _ => by simp), (fun ht => Or.inl (trig_keep _ rfl rfl rfl ht))⟩
+    | dgram d0 =>
+      dsimp only
+      by_cases hc : (w.who == .ticker && e.parked.isNone) = true
+      · rw [if_pos hc]
+        have hc' : w.who = .ticker ∧ e.parked = none := by
+          simp only [Bool.and_eq_true, beq_iff_eq, Option.isNone_iff_eq_none] at hc; exact hc
+        cases uc with
+        | true =>
+          rw [if_pos rfl]
+          exact ⟨keep _ rfl rfl rfl rfl rfl hp.symm (Or.inr ⟨hc'.2, hc'.1, false, rfl⟩), rfl, hd, rfl, rfl, (by simp [hp]),
+            (fun _ => by simp), (fun _ => Or.inr (Or.inl rfl))⟩
+        | false =>
+          rw [if_neg (by simp)]
+          have hdg : dgramsOf uevs = (taken ++ [d0]) ++ dgramsOf rest := by rw [h1, hp]; simp [dgramsOf]
+          have h3' : e.flushes.flatten ++ e.batch = encodeAll (normDs taken) := by
+            simpa [Enc.stream, hc'.2, parkedEnc] using h3
+          by_cases hz : (d0.take readBuf_0).length = 0
+          · rw [if_pos hz]
+            have hn : normDs [d0] = [] := by simp [normDs, hz]
+            refine ⟨⟨⟨taken ++ [d0], hdg, (by show e.nread + 1 = _; simp [h2]), ?_⟩, (fun hdn => by simp [hd] at hdn),
+              (fun w' hw' => h.wipn w' hw'), h.park⟩, rfl, hd, rfl, rfl, (by simp), (fun _ => by simp),
+              (fun ht => Or.inl (trig_keep _ rfl rfl rfl ht))⟩
+            rw [normDs_append, hn, List.append_nil]; exact h3
+          · rw [if_neg hz]
+            have hn : normDs [d0] = [d0.take readBuf_0] := by
+              simp only [normDs, List.map_cons, List.map_nil]
+              rw [List.filter_cons, if_pos (by simpa using hz)]; rfl
+            refine ⟨⟨⟨taken ++ [d0], hdg, (by show e.nread + 1 = _; simp [h2]), ?_⟩, (fun hdn => by simp [hd] at hdn),
+              (fun w' hw' => h.wipn w' hw'), (fun _ => ⟨w.n, by rw [hw]; cases w; simp at hc' ⊢; exact hc'.1⟩)⟩, rfl, hd, rfl, rfl, (by simp),
+              (fun _ => by simp), (fun ht => ?_)⟩
+            · rw [normDs_append, hn, encodeAll_append, ← h3']
+              simp [Enc.stream, parkedEnc, encodeAll]
+            · unfold EncTrig at ht ⊢
+              rcases ht with ht | ht | ht
+              · exact Or.inl (Or.inl ht)
+              · exact Or.inl (Or.inr (Or.inl ht))
+              · obtain ⟨te, hte⟩ := ht; simp at hte
+      · rw [if_neg hc]
+        exact ⟨h, rfl, hd, rfl, rfl, (by simp [hp]), (fun _ => by simp [hp]),
+          (fun ht => Or.inl ht)⟩
+
+/-- The Write in progress returns. Its region was the whole batch and nobody could append to it, so
+the tunnel receives exactly what was handed to it; then whoever waited for `batchMu` goes on. -/
+theorem endWrite_spec (uevs : List UEv) (e : Enc) (h : EncInv uevs e) :
+    EncInv uevs e.endWrite ∧ e.endWrite.wip = none ∧ e.endWrite.parked = none ∧ e.endWrite.pending = e.pending ∧
+    (e.done = true → e.endWrite = e) ∧ (EncTrig e.endWrite → EncTrig e) := by
+  obtain ⟨taken, h1, h2, h3⟩ := h.split
+  unfold Enc.endWrite
+  cases hw : e.wip with
+  | none =>
+    dsimp only
+    exact ⟨h, hw, encInv_noparked uevs e h hw, rfl, fun _ => rfl, fun ht => ht⟩
+  | some w =>
+    dsimp only
+    have hwn := h.wipn w hw
+    have htk : e.batch.take w.n = e.batch := by rw [hwn.1]; exact List.take_length
+    rw [htk]
+    have hfl : (e.flushes ++ [e.batch]).flatten ++ ([] : Bytes) = e.flushes.flatten ++ e.batch := by simp
+    cases hwho : w.who with
+    | mainFin te =>
+      dsimp only
+      have hpk : e.parked = none := by
+        cases hp : e.parked with
+        | none => rfl
+        | some p =>
+          obtain ⟨n, hn⟩ := h.park (by simp [hp])
+          rw [hw] at hn; have := Option.some.inj hn; rw [this] at hwho; cases hwho
+      refine ⟨⟨⟨taken, h1, h2, ?_⟩, (fun _ => ⟨rfl, rfl, hpk⟩), (fun w' hw' => by cases hw'), (fun hne => absurd hpk hne)⟩,
+        rfl, hpk, rfl, (fun hd' => by rw [hwn.2] at hd'; cases hd'), (fun _ => ?_)⟩
+      · simp only [Enc.stream] at h3 ⊢
+        rw [hpk] at h3 ⊢; rw [hfl]; simpa [parkedEnc] using h3
+      · exact Or.inr (Or.inl ⟨w.n, te, by rw [hw]; cases w; simp at hwho ⊢; exact hwho⟩)
+    | mainHalf =>
+      dsimp only
+      have hpk : e.parked = none := by
+        cases hp : e.parked with
+        | none => rfl
+        | some p =>
+          obtain ⟨n, hn⟩ := h.park (by simp [hp])
+          rw [hw] at hn; have := Option.some.inj hn; rw [this] at hwho; cases hwho
+      refine ⟨⟨⟨taken, h1, h2, ?_⟩, (fun hd' => by rw [hwn.2] at hd'; cases hd'), (fun w' hw' => by cases hw'), (fun hne => absurd hpk hne)⟩,
+        rfl, hpk, rfl, (fun hd' => by rw [hwn.2] at hd'; cases hd'), (fun ht => ?_)⟩
+      · simp only [Enc.stream] at h3 ⊢
+        rw [hpk] at h3 ⊢; rw [hfl]; simpa [parkedEnc] using h3
+      · unfold EncTrig at ht ⊢
+        rcases ht with ht | ht | ht
+        · rw [hwn.2] at ht; cases ht
+        · obtain ⟨n, te, hh⟩ := ht; cases hh
+        · obtain ⟨te, hh⟩ := ht; rw [hpk] at hh; cases hh
+    | ticker =>
+      dsimp only
+      cases hp : e.parked with
+      | none =>
+        dsimp only
+        refine ⟨⟨⟨taken, h1, h2, ?_⟩, (fun hd' => by rw [hwn.2] at hd'; cases hd'), (fun w' hw' => by cases hw'), (fun hne => absurd rfl hne)⟩,
+          rfl, rfl, rfl, (fun hd' => by rw [hwn.2] at hd'; cases hd'), (fun ht => ?_)⟩
+        · simp only [Enc.stream] at h3 ⊢
+          rw [hfl]; simpa [parkedEnc, hp] using h3
+        · unfold EncTrig at ht ⊢
+          rcases ht with ht | ht | ht
+          · rw [hwn.2] at ht; cases ht
+          · obtain ⟨n, te, hh⟩ := ht; cases hh
+          · obtain ⟨te, hh⟩ := ht; cases hh
+      | some pe =>
+        cases pe with
+        | dgram d =>
+          dsimp only
+          have hsp := encode_spec { e with flushes := e.flushes ++ [e.batch], batch := [], wip := none, parked := none } d false rfl
+          dsimp only at hsp
+          generalize ({ e with flushes := e.flushes ++ [e.batch], batch := [], wip := none, parked := none } : Enc).encode d false = e' at hsp
+          obtain ⟨s1, s2, s3, s4, s5, s6, s7⟩ := hsp
+          have hw' := s7 rfl
+          refine ⟨⟨⟨taken, (by rw [s2]; exact h1), (by rw [s3]; exact h2), ?_⟩, (fun hd' => by rw [s4, hwn.2] at hd'; cases hd'),
+            (fun w' hw'' => by rw [hw'] at hw''; cases hw''), (fun hne => absurd s5 hne)⟩,
+            hw', s5, s2, (fun hd' => by rw [hwn.2] at hd'; cases hd'), (fun ht => ?_)⟩
+          · simp only [Enc.stream] at h3 ⊢
+            rw [hp] at h3
+            rw [s5, s1, hfl]; simpa [parkedEnc] using h3
+          · unfold EncTrig at ht ⊢
+            rcases ht with ht | ht | ht
+            · rw [s4, hwn.2] at ht; cases ht
+            · obtain ⟨n, te, hh⟩ := ht; rw [hw'] at hh; cases hh
+            · obtain ⟨te, hh⟩ := ht; rw [s5] at hh; cases hh
+        | tail te =>
+          dsimp only
+          have hf := flush_fields { e with flushes := e.flushes ++ [e.batch], batch := [], wip := none, parked := none }
+          have hs := flush_stream { e with flushes := e.flushes ++ [e.batch], batch := [], wip := none, parked := none }
+          have hb := flush_batch { e with flushes := e.flushes ++ [e.batch], batch := [], wip := none, parked := none }
+          dsimp only at hf hs hb
+          refine ⟨⟨⟨taken, (by show dgramsOf uevs = taken ++ dgramsOf (Enc.flush _).pending; rw [hf.1]; exact h1),
+              (by show (Enc.flush _).nread = _; rw [hf.2.1]; exact h2), ?_⟩,
+            (fun _ => ⟨hb, (by show (Enc.flush _).wip = none; rw [hf.2.2.2.1]), (by show (Enc.flush _).parked = none; rw [hf.2.2.2.2])⟩),
+            (fun w' hw'' => by have hx : (Enc.flush _).wip = some w' := hw''; rw [hf.2.2.2.1] at hx; cases hx),
+            (fun hne => by have hx : (Enc.flush _).parked ≠ none := hne; rw [hf.2.2.2.2] at hx; exact absurd rfl hx)⟩,
+            (by show (Enc.flush _).wip = none; rw [hf.2.2.2.1]), (by show (Enc.flush _).parked = none; rw [hf.2.2.2.2]), hf.1,
+            (fun hd' => by rw [hwn.2] at hd'; cases hd'), (fun _ => Or.inr (Or.inr ⟨te, hp⟩))⟩
+          show (Enc.flush _).flushes.flatten ++ (Enc.flush _).batch ++ parkedEnc (Enc.flush _).parked = _
+          rw [hs, hf.2.2.2.2]
+          simp only [Enc.stream] at h3
+          rw [hp] at h3
+          rw [hfl]; simpa [parkedEnc] using h3
 
 /-! ### the UDP relay under a schedule (repaired code) -/
 
@@ -689,104 +1100,184 @@ theorem rdNext_fin_nofuse (p : List Bytes) (room : Nat) (h : (rdNext p false roo
     simp only [rdNext] at h
     split at h <;> simp at h
 
+/-- If the UDP side stopped before its script was over, the tunnel side had ended first (and a tunnel
+that never ends by itself can only have ended on an illegal record). -/
+def EarlyOK (c : UdpCase) (s : UdpSt) : Prop :=
+  s.enc.pending ≠ [] → s.dec.done = true ∧ (c.ttail = .hold → s.dec.stop = .illegal)
+
 structure UdpInv (c : UdpCase) (s : UdpSt) : Prop where
   dec : DecInv c.tchunks.flatten s.dec
   enc : EncInv c.uevs s.enc
   cw : s.cwT = s.enc.done
   ucl : s.udpClosed = s.dec.done
   hold : c.ttail = .hold → s.dec.done = true → s.dec.stop ≠ .illegal → s.cwT = true
-  early : s.enc.done = true → s.enc.pending ≠ [] → s.dec.done = true ∧ (c.ttail = .hold → s.dec.stop = .illegal)
+  early : EncTrig s.enc → EarlyOK c s
   remb : s.dec.rem ≤ stepsFor c.tchunks
   plen : s.enc.pending.length ≤ c.uevs.length
+  dh : ∀ d, s.decHeld = some d → s.dec.done = false ∧ DecInv c.tchunks.flatten d ∧ d.rem ≤ stepsFor c.tchunks ∧
+      (c.ttail = .hold → d.done = true → d.stop ≠ .illegal → s.cwT = true)
 
-theorem udpInv_init (c : UdpCase) : UdpInv c (udpInit c) :=
-  ⟨decInv_init _, encInv_init _, rfl, rfl, fun _ h => by simp [udpInit, Dec.done] at h, fun h => by simp [udpInit] at h,
-   by simp [udpInit, Dec.rem, Dec.done, stepsFor_eq], by simp [udpInit]⟩
+theorem udpInv_init (c : UdpCase) : UdpInv c (udpInit c) := by
+  refine ⟨decInv_init _, encInv_init _, rfl, rfl, (fun _ h => by simp [udpInit, Dec.done] at h), (fun ht => ?_),
+    (by simp [udpInit, Dec.rem, Dec.done, stepsFor_eq]), (by simp [udpInit]), (fun d h => by simp [udpInit] at h)⟩
+  unfold EncTrig at ht
+  rcases ht with ht | ht | ht
+  · simp [udpInit] at ht
+  · obtain ⟨n, te, hh⟩ := ht; simp [udpInit] at hh
+  · obtain ⟨te, hh⟩ := ht; simp [udpInit] at hh
 
-theorem finish_fields (e : Enc) (te : Bool) : (e.finish te).done = true ∧ (e.finish te).pending = e.pending := by
-  simp [Enc.finish, flush_fields]
-
-theorem udpStep_U_closed (c : UdpCase) (s : UdpSt) (h : UdpInv c s) (hd : s.enc.done = false) (hc : s.udpClosed = true) :
-    UdpInv c { s with enc := s.enc.finish false, cwT := true } := by
+theorem closed_early (c : UdpCase) (s : UdpSt) (h : UdpInv c s) (hd : s.enc.done = false) (hc : s.udpClosed = true) :
+    s.dec.done = true ∧ (c.ttail = .hold → s.dec.stop = .illegal) := by
   have hdd : s.dec.done = true := by rw [← h.ucl]; exact hc
-  refine ⟨h.dec, finish_inv _ _ _ h.enc, by simp [finish_fields], h.ucl, fun _ _ _ => rfl, fun _ _ => ⟨hdd, fun hh => ?_⟩, h.remb, by simpa [finish_fields] using h.plen⟩
+  refine ⟨hdd, fun hh => ?_⟩
   by_cases hi : s.dec.stop = .illegal
   · exact hi
   · have := h.hold hh hdd hi
     rw [h.cw, hd] at this
     cases this
 
-theorem udpStep_U_tail (c : UdpCase) (s : UdpSt) (te : Bool) (h : UdpInv c s) (hp : s.enc.pending = []) :
-    UdpInv c { s with enc := s.enc.finish te, cwT := true } := by
-  refine ⟨h.dec, finish_inv _ _ _ h.enc, by simp [finish_fields], h.ucl, fun _ _ _ => rfl, fun _ hne => ?_, h.remb, by simpa [finish_fields] using h.plen⟩
-  simp [finish_fields, hp] at hne
+/-- The UDP side moves from a state in which it has not finished. -/
+theorem withEnc_inv (c : UdpCase) (s : UdpSt) (e' : Enc) (h : UdpInv c s) (hd : s.enc.done = false)
+    (he : EncInv c.uevs e') (hl : e'.pending.length ≤ s.enc.pending.length)
+    (hearly : EncTrig e' → e'.pending ≠ [] → s.dec.done = true ∧ (c.ttail = .hold → s.dec.stop = .illegal)) :
+    UdpInv c (s.withEnc e') := by
+  have hcw : s.cwT = false := by rw [h.cw]; exact hd
+  unfold UdpSt.withEnc
+  refine ⟨h.dec, he, (by simp [hcw]), h.ucl, (fun hh hdn hni => ?_), hearly, h.remb, (by have := h.plen; exact Nat.le_trans hl this),
+    (fun d hdh => ?_)⟩
+  · have := h.hold hh hdn hni
+    rw [hcw] at this; cases this
+  · obtain ⟨a, b, cc, dd⟩ := h.dh d hdh
+    exact ⟨a, b, cc, fun hh hdn hni => by have := dd hh hdn hni; rw [hcw] at this; cases this⟩
 
-theorem udpStep_inv (c : UdpCase) (s : UdpSt) (t : Bool) (h : UdpInv c s) : UdpInv c (udpStep .repaired c s t) := by
-  unfold udpStep
-  cases t with
-  | true =>
-    rw [if_pos rfl]
-    by_cases hd : s.enc.done = true
-    · rw [if_pos hd]; exact h
-    · have hd' : s.enc.done = false := by simpa using hd
-      rw [if_neg hd]
+theorem withEnc_self (c : UdpCase) (s : UdpSt) (h : UdpInv c s) : s.withEnc s.enc = s := by
+  have := h.cw
+  cases s
+  simp only [UdpSt.withEnc] at *
+  simp [this]
+
+theorem udpStepU_inv (c : UdpCase) (s : UdpSt) (hold : Bool) (h : UdpInv c s) : UdpInv c (udpStepU c s hold) := by
+  unfold udpStepU
+  by_cases hd : s.enc.done = true
+  · rw [if_pos hd]; exact h
+  · have hd' : s.enc.done = false := by simpa using hd
+    rw [if_neg hd]
+    cases hw : s.enc.wip with
+    | some w =>
+      dsimp only
+      have sp := stepBlocked_spec c.uevs s.enc w s.udpClosed (utailEnd c.utail) h.enc hw hd'
+      generalize s.enc.stepBlocked w s.udpClosed (utailEnd c.utail) = e' at sp ⊢
+      obtain ⟨i1, _, _, _, _, i6, i7, i8⟩ := sp
+      refine withEnc_inv c s e' h hd' i1 i6 (fun ht hne => ?_)
+      rcases i8 ht with h' | h' | h'
+      · exact h.early h' (i7 hne)
+      · exact closed_early c s h hd' h'
+      · exact absurd h' hne
+    | none =>
+      dsimp only
       by_cases hc : s.udpClosed = true
-      · rw [if_pos hc]; exact udpStep_U_closed c s h hd' hc
+      · rw [if_pos hc]
+        have sp := finish_spec c.uevs s.enc false false h.enc hd' hw
+        exact withEnc_inv c s _ h hd' sp.1 (by rw [sp.2.1]; exact Nat.le_refl _) (fun _ _ => closed_early c s h hd' hc)
       · rw [if_neg hc]
         cases hp : s.enc.pending with
-        | nil =>
-          simp only []
-          cases hu : c.utail with
-          | hold => exact h
-          | eof => exact udpStep_U_tail c s false h hp
-          | err => exact udpStep_U_tail c s true h hp
         | cons ev rest =>
-          simp only []
-          have hf := encEv_fields { s.enc with pending := rest } ev
-          dsimp only at hf
-          refine ⟨h.dec, encEv_inv _ _ _ _ h.enc hp hd', ?_, h.ucl, h.hold, fun hdone => ?_, h.remb, ?_⟩
-          · dsimp only; rw [hf.2]; exact h.cw
-          · dsimp only at hdone; rw [hf.2, hd'] at hdone; cases hdone
-          · dsimp only; rw [hf.1]; have := h.plen; rw [hp] at this; simp at this; omega
-  | false =>
-    rw [if_neg (by simp)]
-    by_cases hd : s.dec.done = true
-    · rw [if_pos hd]; exact h
-    · have hd' : s.dec.done = false := by simpa using hd
-      have hr : s.dec.stop = .running := by
-        cases hs : s.dec.stop <;> simp [Dec.done, hs] at hd' ; rfl
-      rw [if_neg hd]
-      by_cases hb : (s.dec.pending.isEmpty && c.ttail == .hold && !s.cwT && decide (s.dec.buf.length < refill)) = true
-      · rw [if_pos hb]; exact h
-      · rw [if_neg hb]
-        have hstep := decIter_step c.tchunks.flatten (c.ttail == .err) (c.tfused && c.ttail != .hold) s.dec h.dec hr
-        simp only []
-        generalize decIter .repaired (c.ttail == .err) (c.tfused && c.ttail != .hold) s.dec = d at hstep
-        have hucl : s.udpClosed = false := by rw [h.ucl]; exact hd'
-        refine ⟨hstep.1, h.enc, h.cw, by simp [hucl], fun hh hdn hni => ?_, fun he hne => ?_, ?_, h.plen⟩
-        · -- a hold tail is only read after the tunnel was half-closed
-          have hstop : d.stop = .clean ∨ d.stop = .trunc := by
-            cases hs : d.stop with
-            | running => simp [Dec.done, hs] at hdn
-            | illegal => exact absurd hs hni
-            | clean => exact Or.inl rfl
-            | trunc => exact Or.inr rfl
-          have hfin := hstep.2.2 hstop
-          have hf0 : (c.tfused && c.ttail != .hold) = false := by simp [hh]
-          rw [hf0] at hfin
-          have hp := rdNext_fin_nofuse _ _ hfin
-          have hlt := stuck_lt_refill _ (h.dec.stuck hr)
-          cases hcw : s.cwT with
-          | true => rfl
-          | false => simp [hp, hh, hcw, hlt] at hb
-        · have := (h.early he hne).1
-          rw [hd'] at this; cases this
-        · have h1 := hstep.2.1
-          have h2 := h.remb
-          show d.rem ≤ stepsFor c.tchunks
-          omega
+          dsimp only
+          have sp := encEv_spec c.uevs s.enc hold ev rest h.enc hp hd' hw
+          generalize encEv { s.enc with pending := rest } hold ev = e' at sp ⊢
+          obtain ⟨i1, i2, i3, i4, i5, _⟩ := sp
+          refine withEnc_inv c s e' h hd' i1 (by rw [i2, hp]; simp) (fun ht _ => ?_)
+          unfold EncTrig at ht
+          rcases ht with ht | ht | ht
+          · rw [i3] at ht; cases ht
+          · obtain ⟨n, te, hh⟩ := ht; exact absurd hh (i5 n te)
+          · obtain ⟨te, hh⟩ := ht; rw [i4] at hh; cases hh
+        | nil =>
+          dsimp only
+          cases hu : utailEnd c.utail with
+          | none => exact h
+          | some te =>
+            dsimp only
+            have sp := finish_spec c.uevs s.enc te hold h.enc hd' hw
+            exact withEnc_inv c s _ h hd' sp.1 (by rw [sp.2.1]; exact Nat.le_refl _)
+              (fun _ hne => by rw [sp.2.1, hp] at hne; exact absurd rfl hne)
 
-theorem udpFold_inv (c : UdpCase) (σ : List Bool) (s : UdpSt) (h : UdpInv c s) :
+theorem commit_inv (c : UdpCase) (s : UdpSt) (d : Dec) (h : UdpInv c s) (hnd : s.dec.done = false)
+    (hdi : DecInv c.tchunks.flatten d) (hrem : d.rem ≤ stepsFor c.tchunks)
+    (hh : c.ttail = .hold → d.done = true → d.stop ≠ .illegal → s.cwT = true) :
+    UdpInv c (s.commitDec .repaired d) := by
+  have hucl : s.udpClosed = false := by rw [h.ucl]; exact hnd
+  unfold UdpSt.commitDec
+  refine ⟨hdi, h.enc, h.cw, (by simp [hucl]), hh, (fun ht hne => ?_), hrem, h.plen, (fun d' hd' => by cases hd')⟩
+  have := (h.early ht hne).1
+  rw [hnd] at this; cases this
+
+theorem udpStepT_inv (c : UdpCase) (s : UdpSt) (hold : Bool) (h : UdpInv c s) : UdpInv c (udpStepT .repaired c s hold) := by
+  unfold udpStepT
+  by_cases hd : (s.dec.done || s.decHeld.isSome) = true
+  · rw [if_pos hd]; exact h
+  · rw [if_neg hd]
+    have hd' : s.dec.done = false ∧ s.decHeld = none := by
+      simp only [Bool.or_eq_true, not_or, Bool.not_eq_true, Option.isSome_eq_false_iff, Option.isNone_iff_eq_none] at hd
+      exact hd
+    have hr : s.dec.stop = .running := by
+      have := hd'.1
+      cases hs : s.dec.stop <;> simp [Dec.done, hs] at this ; rfl
+    by_cases hb : (s.dec.pending.isEmpty && c.ttail == .hold && !s.cwT && decide (s.dec.buf.length < refill)) = true
+    · rw [if_pos hb]; exact h
+    · rw [if_neg hb]
+      have hstep := decIter_step c.tchunks.flatten (c.ttail == .err) (c.tfused && c.ttail != .hold) s.dec h.dec hr
+      dsimp only
+      generalize decIter .repaired (c.ttail == .err) (c.tfused && c.ttail != .hold) s.dec = d at hstep ⊢
+      have hrem : d.rem ≤ stepsFor c.tchunks := by have := hstep.2.1; have := h.remb; omega
+      have hhold : c.ttail = .hold → d.done = true → d.stop ≠ .illegal → s.cwT = true := by
+        intro hh hdn hni
+        have hstop : d.stop = .clean ∨ d.stop = .trunc := by
+          cases hs : d.stop with
+          | running => simp [Dec.done, hs] at hdn
+          | illegal => exact absurd hs hni
+          | clean => exact Or.inl rfl
+          | trunc => exact Or.inr rfl
+        have hfin := hstep.2.2 hstop
+        have hf0 : (c.tfused && c.ttail != .hold) = false := by simp [hh]
+        rw [hf0] at hfin
+        have hp := rdNext_fin_nofuse _ _ hfin
+        have hlt := stuck_lt_refill _ (h.dec.stuck hr)
+        cases hcw : s.cwT with
+        | true => rfl
+        | false => simp [hp, hh, hcw, hlt] at hb
+      split
+      · refine ⟨h.dec, h.enc, h.cw, h.ucl, h.hold, h.early, h.remb, h.plen, (fun d' hd'' => ?_)⟩
+        have : d = d' := Option.some.inj hd''
+        subst this
+        exact ⟨hd'.1, hstep.1, hrem, hhold⟩
+      · exact commit_inv c s d h hd'.1 hstep.1 hrem hhold
+
+theorem udpStep_inv (c : UdpCase) (s : UdpSt) (t : UTok) (h : UdpInv c s) : UdpInv c (udpStep .repaired c s t) := by
+  unfold udpStep
+  cases t with
+  | u => exact udpStepU_inv c s false h
+  | uh => exact udpStepU_inv c s true h
+  | t => exact udpStepT_inv c s false h
+  | th => exact udpStepT_inv c s true h
+  | w =>
+    dsimp only
+    have sp := endWrite_spec c.uevs s.enc h.enc
+    by_cases hd : s.enc.done = true
+    · rw [sp.2.2.2.2.1 hd, withEnc_self c s h]; exact h
+    · have hd' : s.enc.done = false := by simpa using hd
+      exact withEnc_inv c s _ h hd' sp.1 (by rw [sp.2.2.2.1]; exact Nat.le_refl _)
+        (fun ht hne => h.early (sp.2.2.2.2.2 ht) (by rw [sp.2.2.2.1] at hne; exact hne))
+  | v =>
+    dsimp only
+    cases hh : s.decHeld with
+    | none => exact h
+    | some d =>
+      dsimp only
+      obtain ⟨a, b, cc, dd⟩ := h.dh d hh
+      exact commit_inv c s d h a b cc dd
+
+theorem udpFold_inv (c : UdpCase) (σ : List UTok) (s : UdpSt) (h : UdpInv c s) :
     UdpInv c (σ.foldl (udpStep .repaired c) s) := by
   induction σ generalizing s with
   | nil => exact h
@@ -794,82 +1285,160 @@ theorem udpFold_inv (c : UdpCase) (σ : List Bool) (s : UdpSt) (h : UdpInv c s) 
 
 /-! ### the UDP relay returns -/
 
-/-- The UDP→tunnel goroutine has finished, or is parked in a Read that only a Close can end. -/
-def Parked (c : UdpCase) (s : UdpSt) : Prop := s.enc.done = true ∨ (s.enc.pending = [] ∧ c.utail = .hold)
+/-- No Write is in progress anywhere. -/
+def UdpSt.quiet (s : UdpSt) : Prop := s.enc.wip = none ∧ s.decHeld = none
 
-theorem parked_step (c : UdpCase) (s : UdpSt) (t : Bool) (h : Parked c s) : Parked c (udpStep .repaired c s t) := by
-  unfold udpStep
-  cases t with
-  | false =>
-    rw [if_neg (by simp)]
-    split
+/-- Invariant + quiet: the states of the completion phase. -/
+def Good (c : UdpCase) (s : UdpSt) : Prop := UdpInv c s ∧ s.quiet
+
+theorem release_good (c : UdpCase) (s : UdpSt) (h : UdpInv c s) :
+    Good c (udpStep .repaired c (udpStep .repaired c s .w) .v) := by
+  have h1 := udpStep_inv c s .w h
+  have h2 := udpStep_inv c _ .v h1
+  refine ⟨h2, ?_⟩
+  have q1 : (udpStep .repaired c s .w).enc.wip = none := by
+    simp only [udpStep, UdpSt.withEnc]
+    exact (endWrite_spec c.uevs s.enc h.enc).2.1
+  generalize udpStep .repaired c s .w = s1 at q1 h1 h2 ⊢
+  unfold udpStep UdpSt.quiet
+  dsimp only
+  cases hh : s1.decHeld with
+  | none => exact ⟨q1, hh⟩
+  | some d => exact ⟨q1, rfl⟩
+
+theorem good_u (c : UdpCase) (s : UdpSt) (h : Good c s) : Good c (udpStep .repaired c s .u) := by
+  refine ⟨udpStep_inv c s .u h.1, ?_⟩
+  have hw := h.2.1
+  have hdh := h.2.2
+  simp only [udpStep]
+  unfold udpStepU UdpSt.quiet
+  by_cases hd : s.enc.done = true
+  · rw [if_pos hd]; exact h.2
+  · have hd' : s.enc.done = false := by simpa using hd
+    rw [if_neg hd, hw]
+    dsimp only
+    by_cases hc : s.udpClosed = true
+    · rw [if_pos hc]
+      have sp := finish_spec c.uevs s.enc false false h.1.enc hd' hw
+      exact ⟨(sp.1.fin (sp.2.2.2.2 rfl)).2.1, hdh⟩
+    · rw [if_neg hc]
+      cases hp : s.enc.pending with
+      | cons ev rest =>
+        dsimp only
+        exact ⟨(encEv_spec c.uevs s.enc false ev rest h.1.enc hp hd' hw).2.2.2.2.2 rfl, hdh⟩
+      | nil =>
+        dsimp only
+        cases hu : utailEnd c.utail with
+        | none => exact h.2
+        | some te =>
+          dsimp only
+          have sp := finish_spec c.uevs s.enc te false h.1.enc hd' hw
+          exact ⟨(sp.1.fin (sp.2.2.2.2 rfl)).2.1, hdh⟩
+
+theorem good_t (c : UdpCase) (s : UdpSt) (h : Good c s) : Good c (udpStep .repaired c s .t) := by
+  refine ⟨udpStep_inv c s .t h.1, ?_⟩
+  simp only [udpStep]
+  unfold udpStepT UdpSt.quiet
+  split
+  · exact h.2
+  · split
+    · exact h.2
+    · simp only [Bool.false_and, Bool.false_eq_true, if_false, UdpSt.commitDec]
+      exact ⟨h.2.1, trivial⟩
+
+/-- The UDP→tunnel goroutine has finished, or sits in a Read that only a Close can end. -/
+def UIdle (c : UdpCase) (s : UdpSt) : Prop := s.enc.done = true ∨ (s.enc.pending = [] ∧ c.utail = .hold)
+
+theorem uidle_t (c : UdpCase) (s : UdpSt) (h : UIdle c s) : UIdle c (udpStep .repaired c s .t) := by
+  simp only [udpStep]
+  unfold udpStepT
+  split
+  · exact h
+  · split
     · exact h
-    · split
-      · exact h
-      · exact h
-  | true =>
-    rw [if_pos rfl]
-    by_cases hd : s.enc.done = true
-    · rw [if_pos hd]; exact h
-    · rw [if_neg hd]
-      have hp : s.enc.pending = [] ∧ c.utail = .hold := by
-        cases h with
-        | inl h' => exact absurd h' hd
-        | inr h' => exact h'
-      by_cases hc : s.udpClosed = true
-      · rw [if_pos hc]; exact Or.inl (finish_fields _ _).1
-      · rw [if_neg hc, hp.1, hp.2]; exact Or.inr hp
+    · simp only [Bool.false_and, Bool.false_eq_true, if_false, UdpSt.commitDec]
+      exact h
 
-theorem parked_fold (c : UdpCase) (σ : List Bool) (s : UdpSt) (h : Parked c s) :
-    Parked c (σ.foldl (udpStep .repaired c) s) := by
-  induction σ generalizing s with
-  | nil => exact h
-  | cons t σ ih => exact ih _ (parked_step c s t h)
+theorem uidle_u (c : UdpCase) (s : UdpSt) (hg : Good c s) (h : UIdle c s) : UIdle c (udpStep .repaired c s .u) := by
+  simp only [udpStep]
+  unfold udpStepU
+  by_cases hd : s.enc.done = true
+  · rw [if_pos hd]; exact h
+  · have hd' : s.enc.done = false := by simpa using hd
+    rw [if_neg hd, hg.2.1]
+    dsimp only
+    have hp : s.enc.pending = [] ∧ c.utail = .hold := by
+      cases h with
+      | inl h' => exact absurd h' hd
+      | inr h' => exact h'
+    by_cases hc : s.udpClosed = true
+    · rw [if_pos hc]
+      exact Or.inl ((finish_spec c.uevs s.enc false false hg.1.enc hd' hg.2.1).2.2.2.2 rfl)
+    · rw [if_neg hc, hp.1]
+      dsimp only
+      rw [hp.2]
+      exact Or.inr hp
 
-theorem uphase (c : UdpCase) (m : Nat) : ∀ s : UdpSt, s.enc.pending.length < m →
-    Parked c ((List.replicate m true).foldl (udpStep .repaired c) s) := by
+theorem uphase (c : UdpCase) (m : Nat) : ∀ s : UdpSt, Good c s → s.enc.pending.length < m →
+    Good c ((List.replicate m UTok.u).foldl (udpStep .repaired c) s) ∧
+    UIdle c ((List.replicate m UTok.u).foldl (udpStep .repaired c) s) := by
   induction m with
-  | zero => intro s h; omega
+  | zero => intro s _ h; omega
   | succ m ih =>
-    intro s hlen
+    intro s hg hlen
     rw [List.replicate_succ, List.foldl_cons]
-    by_cases hpk : Parked c s
-    · exact parked_fold c _ _ (parked_step c s true hpk)
+    have hg' := good_u c s hg
+    have idle_fold : ∀ (k : Nat) (s' : UdpSt), Good c s' → UIdle c s' →
+        Good c ((List.replicate k UTok.u).foldl (udpStep .repaired c) s') ∧
+        UIdle c ((List.replicate k UTok.u).foldl (udpStep .repaired c) s') := by
+      intro k
+      induction k with
+      | zero => intro s' a b; exact ⟨a, b⟩
+      | succ k ihk =>
+        intro s' a b
+        rw [List.replicate_succ, List.foldl_cons]
+        exact ihk _ (good_u c s' a) (uidle_u c s' a b)
+    by_cases hpk : UIdle c s
+    · exact idle_fold m _ hg' (uidle_u c s hg hpk)
     · have hd : ¬ s.enc.done = true := fun h' => hpk (Or.inl h')
+      have hd' : s.enc.done = false := by simpa using hd
+      have hstep : udpStep .repaired c s .u = udpStepU c s false := rfl
       by_cases hc : s.udpClosed = true
-      · apply parked_fold
-        unfold udpStep
-        rw [if_pos rfl, if_neg hd, if_pos hc]
-        exact Or.inl (finish_fields _ _).1
+      · apply idle_fold m _ hg'
+        rw [hstep]; unfold udpStepU
+        rw [if_neg hd, hg.2.1]; dsimp only; rw [if_pos hc]
+        exact Or.inl ((finish_spec c.uevs s.enc false false hg.1.enc hd' hg.2.1).2.2.2.2 rfl)
       · cases hp : s.enc.pending with
         | nil =>
-          apply parked_fold
-          unfold udpStep
-          rw [if_pos rfl, if_neg hd, if_neg hc, hp]
+          apply idle_fold m _ hg'
+          rw [hstep]; unfold udpStepU
+          rw [if_neg hd, hg.2.1]; dsimp only; rw [if_neg hc, hp]; dsimp only
           cases hu : c.utail with
           | hold => exact absurd (Or.inr ⟨hp, hu⟩) hpk
-          | eof => exact Or.inl (finish_fields _ _).1
-          | err => exact Or.inl (finish_fields _ _).1
+          | eof => exact Or.inl ((finish_spec c.uevs s.enc false false hg.1.enc hd' hg.2.1).2.2.2.2 rfl)
+          | err => exact Or.inl ((finish_spec c.uevs s.enc true false hg.1.enc hd' hg.2.1).2.2.2.2 rfl)
         | cons ev rest =>
-          apply ih
-          unfold udpStep
-          rw [if_pos rfl, if_neg hd, if_neg hc, hp]
-          have hf := encEv_fields { s.enc with pending := rest } ev
-          dsimp only at hf ⊢
-          rw [hf.1]
+          apply ih _ hg'
+          rw [hstep]; unfold udpStepU
+          rw [if_neg hd, hg.2.1]; dsimp only; rw [if_neg hc, hp]; dsimp only
+          have sp := encEv_spec c.uevs s.enc false ev rest hg.1.enc hp hd' hg.2.1
+          simp only [UdpSt.withEnc]
+          rw [sp.2.1]
           rw [hp] at hlen
           simp at hlen
           omega
 
-theorem udpStep_T_rem (c : UdpCase) (s : UdpSt) (h : UdpInv c s) (hpk : Parked c s)
+theorem udpStep_T_rem (c : UdpCase) (s : UdpSt) (hg : Good c s) (hpk : UIdle c s)
     (hwf : ¬ (c.utail = .hold ∧ c.ttail = .hold)) :
-    (udpStep .repaired c s false).dec.rem ≤ s.dec.rem - 1 := by
-  unfold udpStep
-  rw [if_neg (by simp)]
+    (udpStep .repaired c s .t).dec.rem ≤ s.dec.rem - 1 := by
+  have h := hg.1
+  simp only [udpStep]
+  unfold udpStepT
+  rw [hg.2.2]
   by_cases hd : s.dec.done = true
-  · rw [if_pos hd]; simp [Dec.rem, hd]
-  · rw [if_neg hd]
-    have hd' : s.dec.done = false := by simpa using hd
+  · rw [if_pos (by simp [hd])]; simp [Dec.rem, hd]
+  · have hd' : s.dec.done = false := by simpa using hd
+    rw [if_neg (by simp [hd'])]
     have hr : s.dec.stop = .running := by
       cases hs : s.dec.stop <;> simp [Dec.done, hs] at hd' ; rfl
     by_cases hb : (s.dec.pending.isEmpty && c.ttail == .hold && !s.cwT && decide (s.dec.buf.length < refill)) = true
@@ -881,48 +1450,56 @@ theorem udpStep_T_rem (c : UdpCase) (s : UdpSt) (h : UdpInv c s) (hpk : Parked c
       | inl h' => rw [h.cw, h'] at hcw; cases hcw
       | inr h' => exact hwf ⟨h'.2, htt⟩
     · rw [if_neg hb]
+      simp only [Bool.false_and, Bool.false_eq_true, if_false, UdpSt.commitDec]
       exact (decIter_step c.tchunks.flatten _ _ s.dec h.dec hr).2.1
 
 theorem tphase (c : UdpCase) (hwf : ¬ (c.utail = .hold ∧ c.ttail = .hold)) (k : Nat) :
-    ∀ s : UdpSt, UdpInv c s → Parked c s → s.dec.rem ≤ k →
-      ((List.replicate k false).foldl (udpStep .repaired c) s).dec.done = true := by
+    ∀ s : UdpSt, Good c s → UIdle c s → s.dec.rem ≤ k →
+      Good c ((List.replicate k UTok.t).foldl (udpStep .repaired c) s) ∧
+      ((List.replicate k UTok.t).foldl (udpStep .repaired c) s).dec.done = true := by
   induction k with
   | zero =>
-    intro s _ _ hk
+    intro s hg _ hk
     simp only [List.replicate_zero, List.foldl_nil]
-    exact (Dec.rem_zero_iff _).mp (by omega)
+    exact ⟨hg, (Dec.rem_zero_iff _).mp (by omega)⟩
   | succ k ih =>
-    intro s hinv hpk hk
+    intro s hg hpk hk
     rw [List.replicate_succ, List.foldl_cons]
-    apply ih _ (udpStep_inv c s false hinv) (parked_step c s false hpk)
-    have := udpStep_T_rem c s hinv hpk hwf
+    apply ih _ (good_t c s hg) (uidle_t c s hpk)
+    have := udpStep_T_rem c s hg hpk hwf
     omega
 
-theorem lastU (c : UdpCase) (s : UdpSt) (h : UdpInv c s) (hd : s.dec.done = true) :
-    (udpStep .repaired c s true).returned = true := by
-  unfold udpStep
-  rw [if_pos rfl]
+theorem lastU (c : UdpCase) (s : UdpSt) (hg : Good c s) (hd : s.dec.done = true) :
+    (udpStep .repaired c s .u).returned = true := by
+  simp only [udpStep]
+  unfold udpStepU
   by_cases he : s.enc.done = true
   · rw [if_pos he]; simp [UdpSt.returned, he, hd]
-  · rw [if_neg he, if_pos (by rw [h.ucl]; exact hd)]
-    simp [UdpSt.returned, finish_fields, hd]
+  · have he' : s.enc.done = false := by simpa using he
+    rw [if_neg he, hg.2.1]
+    dsimp only
+    rw [if_pos (by rw [hg.1.ucl]; exact hd)]
+    have := (finish_spec c.uevs s.enc false false hg.1.enc he' hg.2.1).2.2.2.2 rfl
+    simp [UdpSt.returned, UdpSt.withEnc, this, hd]
 
-/-- **The repaired relay always returns** — whatever the schedule did before, once each goroutine
-gets its turns: no stream content, cut position, ending or interleaving makes it spin or hang
-(as long as not both sides stay silent forever). -/
-theorem udp_returned (c : UdpCase) (hwf : ¬ (c.utail = .hold ∧ c.ttail = .hold)) (σ : List Bool) :
+/-- **The repaired relay always returns** — whatever the schedule did before (any interleaving,
+Writes left in progress on a slow tunnel or socket): once those Writes complete and each goroutine
+gets its turns, no stream content, cut position or ending makes it spin or hang (as long as not
+both sides stay silent forever). -/
+theorem udp_returned (c : UdpCase) (hwf : ¬ (c.utail = .hold ∧ c.ttail = .hold)) (σ : List UTok) :
     (udpRun .repaired c (udpComplete c σ)).returned = true ∧ UdpInv c (udpRun .repaired c (udpComplete c σ)) := by
   unfold udpRun udpComplete
-  rw [List.foldl_append, List.foldl_append, List.foldl_append]
+  rw [List.foldl_append, List.foldl_append, List.foldl_append, List.foldl_append]
   have h0 := udpFold_inv c σ _ (udpInv_init c)
   generalize σ.foldl (udpStep .repaired c) (udpInit c) = s0 at h0
-  have h1 := udpFold_inv c (List.replicate (c.uevs.length + 1) true) _ h0
-  have p1 := uphase c (c.uevs.length + 1) s0 (by have := h0.plen; omega)
-  generalize (List.replicate (c.uevs.length + 1) true).foldl (udpStep .repaired c) s0 = s1 at h1 p1
-  have h2 := udpFold_inv c (List.replicate (stepsFor c.tchunks) false) _ h1
-  have d2 := tphase c hwf (stepsFor c.tchunks) s1 h1 p1 h1.remb
-  generalize (List.replicate (stepsFor c.tchunks) false).foldl (udpStep .repaired c) s1 = s2 at h2 d2
-  exact ⟨lastU c s2 h2 d2, udpStep_inv c s2 true h2⟩
+  have g1 := release_good c s0 h0
+  simp only [List.foldl_cons, List.foldl_nil]
+  generalize udpStep .repaired c (udpStep .repaired c s0 .w) .v = s1 at g1
+  have p1 := uphase c (c.uevs.length + 1) s1 g1 (by have := g1.1.plen; omega)
+  generalize (List.replicate (c.uevs.length + 1) UTok.u).foldl (udpStep .repaired c) s1 = s2 at p1
+  have d2 := tphase c hwf (stepsFor c.tchunks) s2 p1.1 p1.2 p1.1.1.remb
+  generalize (List.replicate (stepsFor c.tchunks) UTok.t).foldl (udpStep .repaired c) s2 = s3 at d2
+  exact ⟨lastU c s3 d2.1 d2.2, udpStep_inv c s3 .u d2.1.1⟩
 
 /-! ### from the invariants to the property predicate -/
 
@@ -937,8 +1514,8 @@ theorem holdsUdp_of (sc : UdpSpecCase) (chunks : List Bytes) (hflat : chunks.fla
     exact this.symm
   obtain ⟨taken, h1, h2, h3⟩ := inv.enc.split
   dsimp only at h1
-  have hbatch := inv.enc.fin hd.1
-  rw [hbatch, List.append_nil] at h3
+  have hfin := inv.enc.fin hd.1
+  simp only [Enc.stream, hfin.1, hfin.2.2, parkedEnc, List.append_nil] at h3
   have htake : (dgramsOf sc.uevs).take s.enc.nread = taken := by
     rw [h1, h2]; exact List.take_left' rfl
   -- tunnel → UDP
@@ -981,7 +1558,7 @@ theorem holdsUdp_of (sc : UdpSpecCase) (chunks : List Bytes) (hflat : chunks.fla
         | nil => rfl
         | cons ev rest =>
           exfalso
-          have hill := (inv.early hd.1 (by rw [hpe]; simp)).2 hh.1.1
+          have hill := (inv.early (Or.inl hd.1) (by rw [hpe]; simp)).2 hh.1.1
           have := inv.dec.ill hill
           dsimp only at this
           rw [hflat, UdpSpecCase.stream, hj', List.append_nil, (drainAll_cut sc.tds hh.2 sc.cut).2] at this
